@@ -10,10 +10,13 @@ package main
 
 import (
 	"bytes"
+	"fmt"
 	"math"
 	"math/rand"
 	"reflect"
 	"sort"
+	"strings"
+	"sync/atomic"
 
 	"github.com/aclements/go-moremath/fit"
 	"github.com/aclements/go-moremath/graph"
@@ -34,6 +37,9 @@ var c20InPlace = map[string]bool{
 // capacity when whole is set (snapshots), up to their length otherwise (results)
 func deepU(v reflect.Value, whole bool, out *[]uint64, depth int) {
 	if depth > 12 || !v.IsValid() {
+		if depth > 12 {
+			c20Uncomparable.Store("a value nested deeper than 12 levels")
+		}
 		*out = append(*out, 0xdeadbeef)
 		return
 	}
@@ -116,9 +122,29 @@ func deepU(v reflect.Value, whole bool, out *[]uint64, depth int) {
 	case reflect.Func, reflect.Chan, reflect.UnsafePointer:
 		if v.IsNil() {
 			*out = append(*out, 0xffff0003)
-		} else {
-			*out = append(*out, 0xffff0004)
+			return
 		}
+		*out = append(*out, 0xffff0004)
+		if whole {
+			return // inside a snapshot: a func-valued field can only be replaced, which nil/non-nil does not show; not an array
+		}
+		// a RESULT that is a closure is evaluated (its values are the result); a closure of another
+		// shape, or a channel, cannot be compared: the case is refused instead of passed unexamined
+		if v.Kind() == reflect.Func && v.Type() == reflect.TypeOf((func(float64) float64)(nil)) {
+			for _, x := range []float64{0.25, 1, 2.5} {
+				func() {
+					defer func() {
+						if e := recover(); e != nil {
+							atomic.AddInt64(&c20PanicCount, 1)
+							*out = append(*out, 0xbad0bad0)
+						}
+					}()
+					*out = append(*out, math.Float64bits(v.Call([]reflect.Value{reflect.ValueOf(x)})[0].Float()))
+				}()
+			}
+			return
+		}
+		c20Uncomparable.Store("a result of type " + v.Type().String())
 	}
 }
 
@@ -132,6 +158,41 @@ func reflectSlice(v reflect.Value) interface{} {
 		return v.Interface()
 	}
 	return nil
+}
+
+// registers in-place scramblers (c20Scramble) for the arrays of ours reachable from v through
+// exported fields: []float64 / []int windows and IntGraph adjacency lists
+func c20RegScramble(v reflect.Value, depth int) {
+	if depth > 6 || !v.IsValid() || !v.CanInterface() {
+		return
+	}
+	switch v.Kind() {
+	case reflect.Ptr, reflect.Interface:
+		if !v.IsNil() && v.Type() != tRandPtr && v.Type() != reflect.TypeOf(&bytes.Buffer{}) {
+			c20RegScramble(v.Elem(), depth+1)
+		}
+	case reflect.Struct:
+		for i := 0; i < v.NumField(); i++ {
+			c20RegScramble(v.Field(i), depth+1)
+		}
+	case reflect.Slice:
+		switch xs := v.Interface().(type) {
+		case graph.IntGraph:
+			snapG(xs)
+		case []float64:
+			if cap(xs) > 0 {
+				if _, ours := c20BackF[&xs[:1][0]]; ours {
+					snapF(&xs)
+				}
+			}
+		case []int:
+			if cap(xs) > 0 {
+				if _, ours := c20BackI[&xs[:1][0]]; ours {
+					snapI(&xs)
+				}
+			}
+		}
+	}
 }
 
 var (
@@ -162,7 +223,7 @@ func c20Arg(t reflect.Type, rng *rand.Rand, n int, k int) (reflect.Value, bool) 
 		}
 		return reflect.ValueOf(houseI(rng, xs)), true
 	case t == tSample:
-		return reflect.ValueOf(stats.Sample{Xs: c20Data(rng, n)}), true
+		return reflect.ValueOf(c20Sample(rng, n, false)), true
 	case t == tRandPtr:
 		return reflect.ValueOf(rand.New(rand.NewSource(11))), true
 	case t.Kind() == reflect.Interface && t.NumMethod() > 0 && reflect.TypeOf(graph.IntGraph{}).Implements(t):
@@ -207,9 +268,32 @@ type c20Recv struct {
 	mk   func(rng *rand.Rand, n int) interface{} // pointer to a fresh receiver
 }
 
+// methods that are NOT called on a particular receiver because they panic BY DESIGN there (the
+// library's documented "not implemented" panics); each is called on another receiver of the list,
+// and the comparator rejects a case in which any call panicked
+var c20ReflectSkip = map[string]map[string]string{
+	"stats.Sample/weighted": {
+		"MeanCI": "panics by design: Weighted MeanCI not implemented (sample.go)", "Variance": "panics by design: Weighted Variance not implemented",
+		"StdDev": "panics by design: Weighted StdDev not implemented",
+	},
+}
+
+// the API name of a receiver entry: the part before "/" (variants of one type)
+func (r c20Recv) api() string {
+	if i := strings.Index(r.name, "/"); i >= 0 {
+		return r.name[:i]
+	}
+	return r.name
+}
+
 var c20Receivers = []c20Recv{
 	{"stats.Sample", reflect.TypeOf((*stats.Sample)(nil)), func(rng *rand.Rand, n int) interface{} {
-		return &stats.Sample{Xs: c20Data(rng, n), Weights: c20Weights(rng, n)}
+		s := c20Sample(rng, n, false)
+		return &s
+	}},
+	{"stats.Sample/weighted", reflect.TypeOf((*stats.Sample)(nil)), func(rng *rand.Rand, n int) interface{} {
+		s := c20Sample(rng, n, true)
+		return &s
 	}},
 	{"stats.NormalDist", reflect.TypeOf((*stats.NormalDist)(nil)), func(rng *rand.Rand, n int) interface{} { return &stats.NormalDist{Mu: 1, Sigma: 2} }},
 	{"stats.TDist", reflect.TypeOf((*stats.TDist)(nil)), func(rng *rand.Rand, n int) interface{} { return &stats.TDist{V: 4.5} }},
@@ -219,10 +303,10 @@ var c20Receivers = []c20Recv{
 		return &stats.HypergeometicDist{N: 2*n + 5, K: n, Draws: n/2 + 1}
 	}},
 	{"stats.UDist", reflect.TypeOf((*stats.UDist)(nil)), func(rng *rand.Rand, n int) interface{} {
-		return &stats.UDist{N1: 4, N2: 5, T: houseI(rng, []int{2, 1, 3, 1, 2})}
+		return &stats.UDist{N1: 4, N2: 5, T: houseI(rng, [][]int{{1, 2, 3, 1, 2}, {3, 1, 2, 2, 1}, {2, 2, 1, 1, 3}}[rng.Intn(3)])}
 	}},
 	{"stats.KDE", reflect.TypeOf((*stats.KDE)(nil)), func(rng *rand.Rand, n int) interface{} {
-		return &stats.KDE{Sample: stats.Sample{Xs: c20Data(rng, n+2)}, Bandwidth: 0.75}
+		return &stats.KDE{Sample: c20Sample(rng, n+2, rng.Intn(2) == 0), Bandwidth: 0.75}
 	}},
 	{"stats.LinearHist", reflect.TypeOf((*stats.LinearHist)(nil)), func(rng *rand.Rand, n int) interface{} {
 		h := stats.NewLinearHist(0, float64(n)/2+1, 5)
@@ -276,8 +360,8 @@ func c20ReflectMethods(r c20Recv) (called []string, skipped []string) {
 	t := r.typ
 	for i := 0; i < t.NumMethod(); i++ {
 		m := t.Method(i)
-		full := r.name + "." + m.Name
-		if c20InPlace[full] || c20Waived[full] != "" {
+		full := r.api() + "." + m.Name
+		if c20InPlace[full] || c20Waived[full] != "" || c20ReflectSkip[r.name][m.Name] != "" {
 			continue
 		}
 		ok := true
@@ -313,13 +397,21 @@ func init() {
 				var allArgs []reflect.Value
 				for i := 0; i < t.NumMethod(); i++ {
 					m := t.Method(i)
-					if c20InPlace[r.name+"."+m.Name] || c20Waived[r.name+"."+m.Name] != "" {
+					if c20InPlace[r.api()+"."+m.Name] || c20Waived[r.api()+"."+m.Name] != "" || c20ReflectSkip[r.name][m.Name] != "" {
 						continue
 					}
 					var args []reflect.Value
 					ok := true
 					for a := 1; a < m.Type.NumIn(); a++ {
-						v, s := c20Arg(m.Type.In(a), rng, n, a)
+						nn := n
+						if m.Type.In(a) == tInt { // node / component ids: inside the receiver's graph
+							if nm := recv.MethodByName("NumNodes"); nm.IsValid() && nm.Type().NumIn() == 0 {
+								if k := int(nm.Call(nil)[0].Int()); k >= 1 {
+									nn = k
+								}
+							}
+						}
+						v, s := c20Arg(m.Type.In(a), rng, nn, a)
 						if !s {
 							ok = false
 							break
@@ -331,6 +423,17 @@ func init() {
 					}
 					calls = append(calls, mcall{recv.Method(i), args})
 					allArgs = append(allArgs, args...)
+				}
+				// the claimed coverage (c20ReflectMethods, used by the API scan) is what is really called
+				if claimed, _ := c20ReflectMethods(r); len(claimed) != len(calls) {
+					panic(fmt.Sprintf("reflect:%s calls %d methods but claims %d", r.name, len(calls), len(claimed)))
+				}
+				// history step "same arrays, other contents": every housed array reachable from the receiver
+				// and the arguments gets an in-place scrambler (as snapF/snapI/snapG register for the
+				// hand-written entries)
+				c20RegScramble(recv, 0)
+				for _, a := range allArgs {
+					c20RegScramble(a, 0)
 				}
 				snapRecv := func() []uint64 { var o []uint64; deepU(recv, true, &o, 0); return o }
 				snapArgs := func() []uint64 {
@@ -361,6 +464,7 @@ func init() {
 						func() {
 							defer func() {
 								if e := recover(); e != nil {
+									atomic.AddInt64(&c20PanicCount, 1)
 									o = append(o, 0xbad0bad0)
 								}
 							}()
